@@ -1,6 +1,7 @@
 package rules
 
 import (
+	"go/token"
 	"go/ast"
 	"go/types"
 	"strings"
@@ -118,13 +119,140 @@ func c19(c *core.Ctx) {
 		}
 	}
 
-	rO := c.Rule("C19.order", "in SaveFunction the event is emitted before the record guard can be released (events of one record leave in commit order)", 2)
+	rSO := c.Rule("C19.suborder", "a new swamp instance is put into the live map before SummonSwamp asks whether the swamp has subscribers, and a subscription is registered before it looks the swamp up in the live map: whichever side comes second sees the other, so event sending is switched on for every subscriber", 3)
+	{
+		sum := c.Fn(pkgHydra + ".hydra.SummonSwamp")
+		si := sum.Info()
+		sfl := core.NewFlow(p, si, sum.Decl.Body)
+		swampsF := p.MustField(pkgHydra, "hydra", "swamps")
+		var store ast.Node
+		for _, a := range core.Accesses(si, sum.Decl.Body, map[*types.Var]bool{swampsF: true}, false) {
+			if a.Form == "method:Store" || a.Form == "method:LoadOrStore" {
+				store = a.Node
+			}
+		}
+		nChecks := 0
+		core.Calls(sum.Decl.Body, false, func(call *ast.CallExpr) {
+			t := p.ByObj[core.Callee(si, call)]
+			if t == nil || t.Decl.Body == nil || core.Short(t.Pkg.PkgPath) != pkgHydra {
+				return
+			}
+			// a subscriber query: a hydra method that reads one of the subscriber maps and returns bool
+			sig := t.Obj.Type().(*types.Signature)
+			if sig.Results().Len() != 1 || sig.Results().At(0).Type().String() != "bool" {
+				return
+			}
+			readsSubs := false
+			for _, fv := range []string{"eventSubscribers", "infoSubscribers"} {
+				if f2 := core.StructFields(mustStruct(p, pkgHydra, "hydra"))[fv]; f2 != nil {
+					for _, a := range core.Accesses(t.Info(), t.Decl.Body, map[*types.Var]bool{f2: true}, true) {
+						_ = a
+						readsSubs = true
+					}
+				}
+			}
+			if !readsSubs {
+				return
+			}
+			nChecks++
+			ok := false
+			if store != nil {
+				ls, lc := sfl.MustLocate(store), sfl.MustLocate(call)
+				ok = sfl.Dominates(ls, lc)
+			}
+			rSO.Check(ok, sum.Key+":"+t.Obj.Name()+":after-store", call.Pos(), "asked after the instance is in the live map", "SummonSwamp asks for subscribers before the new instance is in the live map: a subscription registered in between finds no live swamp to switch on and is not seen by this check either - the subscriber receives no events until someone else subscribes or the swamp is summoned again")
+		})
+		rSO.Check(nChecks >= 1, sum.Key+":subscriber-checks", sum.Decl.Pos(), "subscriber checks found", "SummonSwamp no longer asks whether the swamp has subscribers")
+		// subscriber side: registration dominates (or is deferred-before) the live-map lookup
+		for _, k := range []string{pkgHydra + ".hydra.SubscribeToSwampEvents", pkgHydra + ".hydra.SubscribeToSwampInfo"} {
+			f := p.FnOpt(k)
+			if f == nil {
+				continue
+			}
+			fi := f.Info()
+			c.Touch(f)
+			lookups := 0
+			bad := false
+			for _, body := range core.Bodies(f.Decl) {
+				for _, a := range core.Accesses(fi, body, map[*types.Var]bool{swampsF: true}, false) {
+					if !strings.HasPrefix(a.Form, "read") && a.Form != "read" {
+						// Load is a method call on the field: classified through the call below
+					}
+					_ = a
+				}
+				core.Calls(body, false, func(call *ast.CallExpr) {
+					if fo := core.Callee(fi, call); fo != nil && fo.Name() == "Load" && core.FieldOf(fi, core.RecvExpr(call)) == swampsF {
+						lookups++
+						// accepted shapes: inside a deferred literal (runs after the registration), or after every store into a subscriber map
+						if body == f.Decl.Body {
+							bad = true
+						} else {
+							inDefer := false
+							for _, n := range core.PathTo(f.Decl.Body, call) {
+								if _, isD := n.(*ast.DeferStmt); isD {
+									inDefer = true
+								}
+							}
+							if !inDefer {
+								bad = true
+							}
+						}
+					}
+				})
+			}
+			rSO.Check(lookups > 0 && !bad, k+":lookup-after-registration", f.Decl.Pos(), "live-map lookup runs after the registration (deferred)", "the subscription looks the swamp up in the live map before it is registered (or not at all): a swamp summoned in between starts without event sending")
+		}
+	}
+
+	rSR := c.Rule("C19.subscribers", "the per-swamp subscriber maps are created atomically: an entry of hydra.eventSubscribers / infoSubscribers is installed with LoadOrStore, never with a Store that follows a separate Load (two concurrent first subscribers would replace each other's map and one subscription would silently disappear)", 2)
+	{
+		hf := core.StructFields(mustStruct(p, pkgHydra, "hydra"))
+		for _, fname := range []string{"eventSubscribers", "infoSubscribers"} {
+			fv := hf[fname]
+			if fv == nil {
+				rSR.Bad(pkgHydra+".hydra."+fname, token.NoPos, "subscriber map field not found")
+				continue
+			}
+			stores, atomics := 0, 0
+			for _, f := range p.FuncsIn(pkgHydra) {
+				if f.Decl.Body == nil {
+					continue
+				}
+				for _, a := range core.Accesses(f.Info(), f.Decl.Body, map[*types.Var]bool{fv: true}, true) {
+					switch a.Form {
+					case "method:Store", "method:Swap":
+						stores++
+						c.Touch(f)
+						rSR.Bad(f.Key+":"+fname+".Store", a.Node.Pos(), "a subscriber map is installed with a plain Store: when it follows a Load that missed, two concurrent first subscribers each install their own map and the second replaces the first - that subscriber was told it is subscribed but never receives an event")
+					case "method:LoadOrStore":
+						atomics++
+						c.Touch(f)
+					}
+				}
+			}
+			rSR.Check(atomics > 0 || stores > 0, pkgHydra+".hydra."+fname+":installed-atomically", token.NoPos, "entries installed with LoadOrStore", "no code installs entries into "+fname)
+		}
+	}
+
+	rO := c.Rule("C19.order", "in SaveFunction the event is emitted before the record guard can be released (events of one record leave in commit order)", 1)
 	{
 		info := sf.Info()
 		fl := core.NewFlow(p, info, sf.Decl.Body)
 		core.Calls(sf.Decl.Body, false, func(call *ast.CallExpr) {
 			fo := core.Callee(info, call)
-			if fo == nil || fo.Name() != "ReleaseTreasureGuard" {
+			if fo == nil {
+				return
+			}
+			releases := fo.Name() == "ReleaseTreasureGuard"
+			if t := p.ByObj[fo]; t != nil && t.Decl.Body != nil && t != sf {
+				// a helper of the package that releases the guard it is handed
+				core.Calls(t.Decl.Body, true, func(c3 *ast.CallExpr) {
+					if f3 := core.Callee(t.Info(), c3); f3 != nil && f3.Name() == "ReleaseTreasureGuard" {
+						releases = true
+					}
+				})
+			}
+			if !releases {
 				return
 			}
 			lr := fl.MustLocate(call)
@@ -140,7 +268,7 @@ func c19(c *core.Ctx) {
 		})
 	}
 
-	rF := c.Rule("C19.flags", "every change flag that SaveFunction reads is cleared by a function SaveFunction calls on the new and modified paths before the guard can be released", 10)
+	rF := c.Rule("C19.flags", "every change flag that SaveFunction reads is cleared by a function SaveFunction calls on the new and modified paths before the guard can be released", 8)
 	{
 		// flags read by SaveFunction: Is<X>Changed methods -> the field they return
 		info := sf.Info()
